@@ -122,7 +122,7 @@ class _BoolNF(ast.NodeTransformer):
 
 # ------------------------------------------------------------------------------------------------ N5-N7
 import os as _os
-_OPT = set(_os.environ.get("SA_NORMAL", "N5,N6,N7,N8,N9").split(","))
+_OPT = set(_os.environ.get("SA_NORMAL", "N5,N6,N7,N8,N9,N10,N11").split(","))
 
 
 def _ends_in_jump(stmts):
@@ -193,7 +193,76 @@ class _ShapeNF(ast.NodeTransformer):
                     return [loop(g, test, [r1], s), ast.fix_missing_locations(r2)]
         return None
 
+    @staticmethod
+    def _flag_accumulation(node):
+        """N11  flag = flag or C   ->   if C: flag = True        (also `flag |= C`)
+        for a local that only ever holds booleans (every store is a True/False literal or this form) and a C that is a
+        comparison / boolean combination of comparisons: under those typing facts the two statements are the same function."""
+        def boolish(e):
+            if isinstance(e, ast.Compare):
+                return True
+            if isinstance(e, ast.UnaryOp) and isinstance(e.op, ast.Not):
+                return True
+            if isinstance(e, ast.BoolOp):
+                return all(boolish(v) for v in e.values)
+            return isinstance(e, ast.Constant) and isinstance(e.value, bool)
+        stores = {}
+        for n in ast.walk(node):
+            if isinstance(n, (ast.FunctionDef, ast.Lambda)) and n is not node:
+                continue
+            if isinstance(n, ast.Assign) and len(n.targets) == 1 and isinstance(n.targets[0], ast.Name):
+                stores.setdefault(n.targets[0].id, []).append(n)
+            elif isinstance(n, ast.AugAssign) and isinstance(n.target, ast.Name):
+                stores.setdefault(n.target.id, []).append(n)
+            elif isinstance(n, (ast.For, ast.comprehension, ast.With, ast.ExceptHandler, ast.arg)):
+                for t in ast.walk(n.target) if hasattr(n, "target") and n.target is not None else []:
+                    if isinstance(t, ast.Name):
+                        stores.setdefault(t.id, []).append(None)
+        params = {a.arg for a in node.args.args + node.args.kwonlyargs}
+
+        def acc(st, x):
+            if isinstance(st, ast.Assign) and isinstance(st.value, ast.BoolOp) and isinstance(st.value.op, ast.Or) and \
+                    len(st.value.values) == 2 and isinstance(st.value.values[0], ast.Name) and st.value.values[0].id == x \
+                    and boolish(st.value.values[1]):
+                return st.value.values[1]
+            if isinstance(st, ast.AugAssign) and isinstance(st.op, ast.BitOr) and boolish(st.value):
+                return st.value
+            return None
+        flags = set()
+        for x, sts in stores.items():
+            if x in params or any(s_ is None for s_ in sts):
+                continue
+            if all((isinstance(s_, ast.Assign) and isinstance(s_.value, ast.Constant) and isinstance(s_.value.value, bool)) or
+                   acc(s_, x) is not None for s_ in sts) and any(acc(s_, x) is not None for s_ in sts):
+                flags.add(x)
+        if not flags:
+            return
+
+        class R(ast.NodeTransformer):
+            def visit_FunctionDef(self, n):
+                return n if n is not node else self.generic_visit(n)
+
+            def _rw(self, st, x):
+                c = acc(st, x)
+                if c is None:
+                    return st
+                new = ast.If(test=c, body=[ast.Assign(targets=[ast.Name(id=x, ctx=ast.Store())], value=ast.Constant(value=True))], orelse=[])
+                return ast.fix_missing_locations(ast.copy_location(new, st))
+
+            def visit_Assign(self, st):
+                if len(st.targets) == 1 and isinstance(st.targets[0], ast.Name) and st.targets[0].id in flags:
+                    return self._rw(st, st.targets[0].id)
+                return st
+
+            def visit_AugAssign(self, st):
+                if isinstance(st.target, ast.Name) and st.target.id in flags:
+                    return self._rw(st, st.target.id)
+                return st
+        R().visit(node)
+
     def visit_FunctionDef(self, node):
+        if "N11" in _OPT:
+            self._flag_accumulation(node)
         # `if any(E for x in xs): S` as the LAST statement of a function: S is followed by the implicit return, so it is the
         # same as `for x in xs: if E: S ; return`
         if "N8" in _OPT and node.body and isinstance(node.body[-1], ast.If) and not node.body[-1].orelse \
@@ -281,7 +350,43 @@ class _ShapeNF(ast.NodeTransformer):
                 out.append(ast.fix_missing_locations(Sub(m).visit(clone(b))))
         return out
 
+    @staticmethod
+    def _default_then_override(a, b):
+        """N10  x = A ; if T: x = B   ->   x = B if T else A     (A free of side effects and T not reading x: exact)"""
+        if not (isinstance(a, ast.Assign) and len(a.targets) == 1 and isinstance(a.targets[0], ast.Name)):
+            return None
+        if not (isinstance(b, ast.If) and not b.orelse and len(b.body) == 1 and isinstance(b.body[0], ast.Assign)
+                and len(b.body[0].targets) == 1 and isinstance(b.body[0].targets[0], ast.Name)
+                and b.body[0].targets[0].id == a.targets[0].id):
+            return None
+        x = a.targets[0].id
+        for n in ast.walk(a.value):
+            if not isinstance(n, (ast.Constant, ast.Name, ast.List, ast.Tuple, ast.Dict, ast.Set, ast.Load, ast.UnaryOp, ast.USub,
+                                  ast.Attribute)):
+                return None
+        if any(isinstance(n, ast.Attribute) for n in ast.walk(a.value)) and any(isinstance(n, ast.Call) for n in ast.walk(b.test)):
+            return None         # a call in the test could change what the attribute holds
+        if any(isinstance(n, ast.Name) and n.id == x for n in ast.walk(b.test)) or \
+                any(isinstance(n, ast.Name) and n.id == x for n in ast.walk(a.value)):
+            return None
+        if any(isinstance(n, (ast.NamedExpr, ast.Yield, ast.YieldFrom, ast.Await)) for n in ast.walk(b.test)):
+            return None
+        new = ast.Assign(targets=[ast.Name(id=x, ctx=ast.Store())],
+                         value=ast.IfExp(test=b.test, body=b.body[0].value, orelse=a.value))
+        return ast.fix_missing_locations(ast.copy_location(new, a))
+
     def _block(self, stmts, chain=False):
+        if "N10" in _OPT and len(stmts) >= 2:
+            merged, i = [], 0
+            while i < len(stmts):
+                m = self._default_then_override(stmts[i], stmts[i + 1]) if i + 1 < len(stmts) else None
+                if m is not None:
+                    merged.append(m)
+                    i += 2
+                else:
+                    merged.append(stmts[i])
+                    i += 1
+            stmts = merged
         out = []
         for s in stmts:
             if "N9" in _OPT:
